@@ -188,7 +188,8 @@ def rejected_join(a1: bool, n1: bool, n2: bool, dup: bool, x: int, y: int, z: in
     if joined:
         if new.id not in env.agents or env.agents[new.id] is not new:
             return hx.end(hx.fail("join reported success but the agent is not resident"))
-        residents = residents + [new]
+        # whoever is in the environment NOW is resident (a displaced namesake is not): the listings must mirror exactly them
+        residents = list(env.agents.values())
     else:
         hx.reach('rejected')
         if not hx.same_seq(list(env.agents.values()), residents):
